@@ -94,6 +94,9 @@ class Ctx:
         paths = []
         if self.violations:
             os.makedirs(self.replay_dir, exist_ok=True)
+            with open(os.path.join(self.replay_dir, f'{self.tier}-all.jsonl'), 'w') as f:
+                for v in self.violations:
+                    f.write(json.dumps(v, default=str) + '\n')
             for i, v in enumerate(self.violations[:20]):
                 p = os.path.join(self.replay_dir, f'{self.tier}-{i:03d}.json')
                 with open(p, 'w') as f:
